@@ -21,4 +21,5 @@ class Check(PropertyCheck):
         return [("world.general", fam_world.general_histories(rng, tier)),
                 ("world.extreme", fam_world.extreme_histories(rng, tier)),
                 ("world.first_provision", fam_world.first_provision_matrix(rng, tier)),
-                ("world.lookalike", fam_world.lookalike_histories(rng, tier))]
+                ("world.lookalike", fam_world.lookalike_histories(rng, tier)),
+                ("world.reseed", fam_world.reseed_histories(rng, tier))]
